@@ -52,7 +52,7 @@ def _sort_check(c, prices):
 TS0 = 1609459200000
 
 
-def _fills(rows, strategy_cls):
+def _fills(rows, strategy_cls, tf='1m', fast=False):
     """run a real 1m step-mode backtest; returns [(minute index, price)] of every fill in execution order"""
     from jesse import research
     from jesse.models import Order
@@ -70,8 +70,8 @@ def _fills(rows, strategy_cls):
     try:
         cfg = {'starting_balance': 100000, 'fee': 0, 'type': 'futures', 'futures_leverage': 2, 'futures_leverage_mode': 'cross',
                'exchange': 'Sandbox', 'warm_up_candles': 0}
-        research.backtest(cfg, [{'exchange': 'Sandbox', 'strategy': strategy_cls, 'symbol': 'BTC-USDT', 'timeframe': '1m'}], [],
-                          {'Sandbox-BTC-USDT': {'exchange': 'Sandbox', 'symbol': 'BTC-USDT', 'candles': np.array(rows, dtype=float)}})
+        research.backtest(cfg, [{'exchange': 'Sandbox', 'strategy': strategy_cls, 'symbol': 'BTC-USDT', 'timeframe': tf}], [],
+                          {'Sandbox-BTC-USDT': {'exchange': 'Sandbox', 'symbol': 'BTC-USDT', 'candles': np.array(rows, dtype=float)}}, fast_mode=fast)
     finally:
         Order.execute = orig
     return fills
@@ -114,6 +114,15 @@ def path_scenarios():
     if got != [115.0, 112.0]:
         return (f'minute o=100 h=120 l=90 c=110: entry at 115, reaction stop at 112, second reaction take-profit at 118: fills {got}; after the '
                 f'stop at 112 (on the way down from 120) the rest of the path is 112 -> 110, so 118 is unreachable: expected [115.0, 112.0]')
+    # (4) fast simulator, 5m route: an entry ladder declared farthest-first, swept by one falling minute inside a chunk
+    class S4(Base):
+        def go_long(self): self.buy = [(1, 97.0), (1, 98.0), (1, 99.0)]
+    flat = [(100, 100, 100, 100)]
+    f = _fills(rows_of(flat * 7 + [(100, 100, 95.5, 95.5)] + [(95.5, 95.5, 95.5, 95.5)] * 7), S4, tf='5m', fast=True)
+    got = sorted(p for m, p in f if p in (97.0, 98.0, 99.0))
+    if got != [97.0, 98.0, 99.0]:
+        return (f'fast simulator, 5m route, buys declared at 97, 98, 99 and one falling minute 100 -> 95.5 inside the chunk: filled {got}; '
+                f'the minute reaches all three prices')
     return None
 
 
